@@ -252,13 +252,13 @@ func c13ParkedWriterVsRelocation(hook, kind string) func(g *gctx) {
 }
 
 var gatedC13 = []gscen{
-	{"G12-put-parked-after-reading-old-location-vs-relocation-of-its-key", c13ParkedWriterVsRelocation("store.put.after-primary", "put"),
+	{"G18-put-parked-after-reading-old-location-vs-relocation-of-its-key", c13ParkedWriterVsRelocation("store.put.after-primary", "put"),
 		func(cfg *gen.Config) { cfg.PrimaryFileSize = 300 }},
-	{"G13-remove-parked-after-lookup-vs-relocation-of-its-key", c13ParkedWriterVsRelocation("store.remove.after-lookup", "rm"),
+	{"G19-remove-parked-after-lookup-vs-relocation-of-its-key", c13ParkedWriterVsRelocation("store.remove.after-lookup", "rm"),
 		func(cfg *gen.Config) { cfg.PrimaryFileSize = 300 }},
-	{"G12b-put-parked-after-lookup-vs-relocation-of-its-key", c13ParkedWriterVsRelocation("store.put.after-lookup", "put"),
+	{"G18b-put-parked-after-lookup-vs-relocation-of-its-key", c13ParkedWriterVsRelocation("store.put.after-lookup", "put"),
 		func(cfg *gen.Config) { cfg.PrimaryFileSize = 300 }},
-	{"G17-close-while-background-collector-is-parked-inside-a-relocation", func(g *gctx) {
+	{"G20-close-while-background-collector-is-parked-inside-a-relocation", func(g *gctx) {
 		k := g.c.Index % len(g.u.Keys)
 		g.relocSetup(k)
 		hook := []string{"mh.gc.relocate.after-put", "mh.gc.relocate.read", "mh.gc.relocate.after-update"}[(g.c.Index/8/4)%3]
